@@ -47,7 +47,10 @@ def _rand(rng, steps, n, nk):
         k = rng.randint(1, nk)
         if r < 0.5:
             ln = rng.choice([1, 2, 31, 32, 33, 34, 97, 98, 99, 100, 163, 164, 165, 230, 231, rng.randint(1, 66 * n)])
-            seg.append(dict(op="put", a=k, vid=rng.randint(1, 4), len=max(4, ln) if ln in (1, 2, 3) else ln))
+            vid = rng.randint(1, 4)
+            ln = max(4, ln) if ln in (1, 2, 3) else ln
+            if vid >= 3: ln = max(ln, 8)          # values 3/4 equal value 1 up to an embedded NUL at offset 5
+            seg.append(dict(op="put", a=k, vid=vid, len=ln))
         elif r < 0.7: seg.append(dict(op="rm", a=k, vid=0, len=0))
         elif r < 0.85: seg.append(dict(op="get", a=k, vid=0, len=0))
         elif r < 0.97: seg.append(dict(op="rmidx", a=rng.randint(0, n - 1), vid=0, len=0))
